@@ -23,6 +23,7 @@
 #define C10_SCHED_INTERPOSE 1
 #endif
 #include "c10_sched.hpp"
+#include "c10_bq.hpp" // Canary + waitBounded (canary-guarded bounded waits)
 #include "pbt.hpp"
 
 #include <iora/core/thread_pool.hpp>
@@ -50,7 +51,7 @@ struct TaskError : std::runtime_error
   explicit TaskError(int i) : std::runtime_error("task-error-" + std::to_string(i)), id(i) {}
 };
 
-enum Kind { kVoid = 0, kValue = 1, kThrow = 2, kNested = 3, kSleep = 4 };
+enum Kind { kVoid = 0, kValue = 1, kThrow = 2, kNested = 3, kSleep = 4, kForkJoin = 5 };
 enum Api { aEnqueue = 0, aTry = 1, aResult = 2 };
 enum Status { sNotSubmitted = 0, sAccepted = 1, sRefused = 2, sUnknown = 3 };
 enum Reason { rNone = 0, rFull = 1, rDraining = 2, rShutdown = 3, rTryFalse = 4 };
@@ -60,7 +61,8 @@ struct TaskRec
   int kind = kVoid;
   int api = aEnqueue;
   int sleepUs = 0;
-  std::vector<int> children; // ids of tasks this body submits (kNested)
+  std::vector<int> children; // ids of tasks this body submits (kNested, kForkJoin)
+  int gapLockNth = 0, gapUs = 0; // after the body: scripted delay before the worker's n-th mutex lock
   std::atomic<int> exec{0};
   std::atomic<int> finished{0};
   std::atomic<int> status{sNotSubmitted};
@@ -93,6 +95,8 @@ struct Ctx
   std::atomic<long> handlerCalls{0};
   std::atomic<long> unjustified{0};
   std::atomic<int> workerSeq{0};
+  std::atomic<int> forkStuck{0};
+  std::string forkStuckWhat;
   bool leak = false; // a worker may still be using this context: the owner must not free it
   std::mutex noteMu;
   std::string unjustifiedWhat; // first one
@@ -108,6 +112,7 @@ template <class A, class V> void atomicMax(A &a, V v)
 long expectedValue(int id) { return static_cast<long>(id) * 7 + 1; }
 
 void submit(Ctx *cx, int id);
+const char *apiName(int a);
 
 long body(Ctx *cx, int id)
 {
@@ -139,6 +144,29 @@ long body(Ctx *cx, int id)
   case kNested:
     for (int ch : t.children) submit(cx, ch);
     break;
+  case kForkJoin:
+    // fork a child into the same pool and wait for it. Generated only where the unchanged pool must
+    // get a worker to the child: maxSize >= 2, the queue cannot be full, every other task of the plan
+    // is short and never waits, at most one fork-join parent per pool. Then either the submission
+    // spawns a worker (_threads.size() < maxSize) or another registered - hence live - worker exists
+    // that is idle (woken by the notify, or finds the task at its timeout) or finishes a short task.
+    for (int ch : t.children)
+    {
+      submit(cx, ch);
+      TaskRec &k = *cx->tasks[static_cast<std::size_t>(ch)];
+      if (k.status.load(std::memory_order_acquire) != sAccepted) continue; // refused (shutdown began): nothing to wait for
+      if (!c10::waitBounded(c10::kBoundSeconds, [&] { return k.finished.load(std::memory_order_acquire) > 0; }))
+      {
+        cx->forkStuck.fetch_add(1);
+        std::lock_guard<std::mutex> lk(cx->noteMu);
+        if (cx->forkStuckWhat.empty())
+          cx->forkStuckWhat = pbt::Fmt() << "task " << id << " submitted child task " << ch << " (" << apiName(k.api) << ", accepted) from inside a worker and waited "
+                                         << c10::kBoundSeconds << " s (canary-guarded): the child " << (k.exec.load() ? "started but did not finish" : "was never started")
+                                         << "; maxSize " << cx->maxSize << ", threads now " << cx->pool->getTotalThreadCount() << ", pending "
+                                         << cx->pool->getPendingTaskCount();
+      }
+    }
+    break;
   default: break;
   }
   if (cx->afterStop.load(std::memory_order_acquire))
@@ -148,6 +176,7 @@ long body(Ctx *cx, int id)
   }
   t.finished.fetch_add(1, std::memory_order_acq_rel);
   cx->running.fetch_sub(1, std::memory_order_acq_rel);
+  if (t.gapUs) sched::scriptLockDelay(static_cast<std::uint32_t>(t.gapLockNth), static_cast<std::uint32_t>(t.gapUs));
   if (t.kind == kThrow) throw TaskError(id);
   return expectedValue(id);
 }
@@ -269,7 +298,7 @@ void pauseBefore(int sel, int idleMs)
 const char *pauseName(int sel) { return sel < 520 ? "" : sel < 640 ? "~y" : sel < 840 ? "~s" : sel < 940 ? "~z" : "~IDLE"; }
 const char *kindName(int k)
 {
-  static const char *n[] = {"void", "value", "throw", "nested", "sleep"};
+  static const char *n[] = {"void", "value", "throw", "nested", "sleep", "forkjoin"};
   return n[k];
 }
 const char *apiName(int a)
@@ -451,6 +480,11 @@ void run(Plan &pl, Ctx &cx, pbt::Case &c)
     c.inconclusive("submission threw an undocumented exception: " + cx.unknownWhat);
     return;
   }
+  if (cx.forkStuck.load() > 0)
+  {
+    c.failTimed("C09/accepted-child-not-run-while-parent-waits", cx.forkStuckWhat);
+    return;
+  }
   if (cx.maxThreads.load() > pl.maxSize)
   {
     c.fail("C09/thread-count-exceeds-max", pbt::Fmt() << "getTotalThreadCount() returned " << cx.maxThreads.load() << " with maxSize " << pl.maxSize);
@@ -553,6 +587,12 @@ void run(Plan &pl, Ctx &cx, pbt::Case &c)
   if (reasons[rShutdown]) c.label("refused: shutting down");
   if (futs) c.label("futures checked");
   if (cx.handlerCalls.load()) c.label("error handler called");
+  for (auto &t : cx.tasks)
+    if (t->kind == kForkJoin && t->exec.load())
+    {
+      bool childRan = !t->children.empty() && cx.tasks[static_cast<std::size_t>(t->children[0])]->exec.load() > 0;
+      c.label(childRan ? "fork-join parent waited for its child" : "fork-join parent ran, child refused");
+    }
   // not part of C09's statement (it speaks of stop/destruction): drain() polls "active == 0 && pending == 0",
   // and a worker that has popped a task but not yet counted itself active is invisible to it
   if (cx.bodiesAfterDrain.load()) c.label("observation: a task body started after drain() had reported completion");
@@ -639,6 +679,28 @@ void generated(pbt::Src &src, pbt::Case &c)
     }
     d << "\n";
     pl.subs.push_back(std::move(ops));
+  }
+  // at most ONE fork-join parent per plan, only where a worker is provably available for the child:
+  // maxSize >= 2, the queue can never be full (all tasks of the plan fit), all other tasks are short
+  {
+    const bool want = src.coin(1, 3);
+    const std::int64_t sub = src.range(0, nSubs - 1);
+    const std::int64_t pos = src.range(0, 23);
+    const int capi = static_cast<int>(src.range(0, 2));
+    if (want && pl.maxSize >= 2 && cx.tasks.size() + 1 <= pl.maxQueue)
+    {
+      auto &ops = pl.subs[static_cast<std::size_t>(sub)];
+      TaskRec &t = *cx.tasks[static_cast<std::size_t>(ops[static_cast<std::size_t>(pos) % ops.size()].task)];
+      if (t.kind == kVoid || t.kind == kValue || t.kind == kSleep)
+      {
+        t.kind = kForkJoin;
+        int cid = addTask(cx, kValue, capi, 0);
+        // addTask may have moved nothing: tasks are held by unique_ptr, `t` stays valid
+        t.children.push_back(cid);
+        d << " fork-join: task " << ops[static_cast<std::size_t>(pos) % ops.size()].task << " of S" << sub << " forks child " << cid << " via "
+          << apiName(capi) << " and waits for it\n";
+      }
+    }
   }
   c.describe(d.str());
   run(pl, cx, c);
@@ -737,11 +799,98 @@ struct SlowResult
 {
   std::string sig, what, label;
   bool inconclusive = false;
+  bool timed = false;
 };
 const char *slowEndName(int m)
 {
   static const char *n[] = {"~ThreadPool()", "stop()", "shutdown()", "drain(short)+~ThreadPool()", "drain(short)+stop()"};
   return n[m];
+}
+
+/// everything that is checked once the pool object is gone (scenario runners of pool_slow / pool_edge)
+void verifyDestroyed(Ctx &cx, std::size_t maxSize, const char *endName, SlowResult &res)
+{
+  sched::sleepUs(300);
+  if (cx.lateBodies.load() > 0)
+  {
+    res.sig = "C09/task-running-after-stop-returned";
+    res.what = pbt::Fmt() << "task " << cx.lateId.load() << " started or was still running after " << endName << " had returned";
+    return;
+  }
+  if (!cx.unknownWhat.empty())
+  {
+    res.inconclusive = true;
+    return;
+  }
+  for (std::size_t i = 0; i < cx.tasks.size(); ++i)
+  {
+    TaskRec &t = *cx.tasks[i];
+    int st = t.status.load(), ex = t.exec.load();
+    if (st == sAccepted && ex != 1)
+    {
+      res.sig = ex ? "C09/task-ran-twice" : "C09/accepted-task-not-run";
+      res.what = pbt::Fmt() << "task " << i << " was accepted and ran " << ex << " times";
+      return;
+    }
+    if (st != sAccepted && ex != 0)
+    {
+      res.sig = "C09/refused-task-ran";
+      res.what = pbt::Fmt() << "task " << i << " ran although its submission was refused";
+      return;
+    }
+    if (st == sAccepted && t.hasFut)
+    {
+      if (!t.fut.valid() || t.fut.wait_for(std::chrono::seconds(0)) != std::future_status::ready)
+      {
+        res.sig = "C09/future-not-ready";
+        res.what = pbt::Fmt() << "future of task " << i << " is not ready after the pool was destroyed";
+        return;
+      }
+      try
+      {
+        long v = t.fut.get();
+        if (t.kind == kThrow || v != expectedValue(static_cast<int>(i)))
+        {
+          res.sig = "C09/future-wrong-result";
+          res.what = pbt::Fmt() << "future of task " << i << " holds value " << v;
+          return;
+        }
+      }
+      catch (const TaskError &e)
+      {
+        if (t.kind != kThrow || e.id != static_cast<int>(i))
+        {
+          res.sig = "C09/future-wrong-result";
+          res.what = pbt::Fmt() << "future of task " << i << " holds a foreign exception";
+          return;
+        }
+      }
+      catch (const std::exception &e)
+      {
+        res.sig = "C09/future-wrong-result";
+        res.what = pbt::Fmt() << "future of task " << i << " holds " << e.what();
+        return;
+      }
+    }
+  }
+  if (cx.unjustified.load() > 0)
+  {
+    res.sig = "C09/refused-without-documented-reason";
+    res.what = cx.unjustifiedWhat;
+    return;
+  }
+  if (static_cast<std::size_t>(cx.maxRunning.load()) > maxSize || cx.maxThreads.load() > maxSize)
+  {
+    res.sig = "C09/thread-count-exceeds-max";
+    res.what = pbt::Fmt() << cx.maxRunning.load() << " concurrent bodies / " << cx.maxThreads.load() << " threads with maxSize " << maxSize;
+    return;
+  }
+  if (cx.forkStuck.load() > 0)
+  {
+    res.sig = "C09/accepted-child-not-run-while-parent-waits";
+    res.what = cx.forkStuckWhat;
+    res.timed = true;
+  }
 }
 
 void runSlow(const SlowPlan &pl, SlowResult &res)
@@ -827,81 +976,8 @@ void runSlow(const SlowPlan &pl, SlowResult &res)
     res.what = early;
     return;
   }
-  sched::sleepUs(300);
-  if (cx.lateBodies.load() > 0)
-  {
-    res.sig = "C09/task-running-after-stop-returned";
-    res.what = pbt::Fmt() << "task " << cx.lateId.load() << " started or was still running after " << slowEndName(pl.endMode) << " had returned";
-    return;
-  }
-  if (!cx.unknownWhat.empty())
-  {
-    res.inconclusive = true;
-    return;
-  }
-  for (std::size_t i = 0; i < cx.tasks.size(); ++i)
-  {
-    TaskRec &t = *cx.tasks[i];
-    int st = t.status.load(), ex = t.exec.load();
-    if (st == sAccepted && ex != 1)
-    {
-      res.sig = ex ? "C09/task-ran-twice" : "C09/accepted-task-not-run";
-      res.what = pbt::Fmt() << "task " << i << " was accepted and ran " << ex << " times";
-      return;
-    }
-    if (st != sAccepted && ex != 0)
-    {
-      res.sig = "C09/refused-task-ran";
-      res.what = pbt::Fmt() << "task " << i << " ran although its submission was refused";
-      return;
-    }
-    if (st == sAccepted && t.hasFut)
-    {
-      if (!t.fut.valid() || t.fut.wait_for(std::chrono::seconds(0)) != std::future_status::ready)
-      {
-        res.sig = "C09/future-not-ready";
-        res.what = pbt::Fmt() << "future of task " << i << " is not ready after the pool was destroyed";
-        return;
-      }
-      try
-      {
-        long v = t.fut.get();
-        if (t.kind == kThrow || v != expectedValue(static_cast<int>(i)))
-        {
-          res.sig = "C09/future-wrong-result";
-          res.what = pbt::Fmt() << "future of task " << i << " holds value " << v;
-          return;
-        }
-      }
-      catch (const TaskError &e)
-      {
-        if (t.kind != kThrow || e.id != static_cast<int>(i))
-        {
-          res.sig = "C09/future-wrong-result";
-          res.what = pbt::Fmt() << "future of task " << i << " holds a foreign exception";
-          return;
-        }
-      }
-      catch (const std::exception &e)
-      {
-        res.sig = "C09/future-wrong-result";
-        res.what = pbt::Fmt() << "future of task " << i << " holds " << e.what();
-        return;
-      }
-    }
-  }
-  if (cx.unjustified.load() > 0)
-  {
-    res.sig = "C09/refused-without-documented-reason";
-    res.what = cx.unjustifiedWhat;
-    return;
-  }
-  if (static_cast<std::size_t>(cx.maxRunning.load()) > pl.maxSize || cx.maxThreads.load() > pl.maxSize)
-  {
-    res.sig = "C09/thread-count-exceeds-max";
-    res.what = pbt::Fmt() << cx.maxRunning.load() << " concurrent bodies / " << cx.maxThreads.load() << " threads with maxSize " << pl.maxSize;
-    return;
-  }
+  verifyDestroyed(cx, pl.maxSize, slowEndName(pl.endMode), res);
+  if (!res.sig.empty()) return;
   if (stopFailed) res.label = "stop() reported failure (no claim attached)";
 }
 
@@ -996,11 +1072,249 @@ void slowRegression(pbt::Case &c)
   runSlowCase(plans, c);
 }
 
+// ================================================================================ pool_edge
+// Two narrow shapes, several small pools per case, one after the other:
+//  idle : pool(0, max 1-2, idle 1-5 ms). `max` warm-up tasks bring up all workers; when they have
+//         finished, the scenario thread sleeps one idle timeout plus an offset and makes the LAST
+//         submission of the plan right where the workers give up (idle-timeout exit); nothing is
+//         submitted afterwards; then destruction / shutdown(). With interposition each warm-up body
+//         scripts a delay before its worker's 2nd mutex lock after the body (1st = top of the worker
+//         loop; a 2nd one exists only if the worker takes the pool mutex again before it leaves),
+//         which holds a retiring worker in any unlocked gap of its exit path while the submission
+//         lands. Unchanged code: exit decision and de-registration happen under one lock hold, so the
+//         submission either finds the worker waiting (and wakes it) or finds it gone (and spawns).
+//  fork : pool(0-1, max 2-3): a fork-join parent (see kForkJoin), alone or next to a few short tasks.
+struct EdgePlan
+{
+  int shape = 0; // 0 idle, 1 fork
+  std::size_t initial = 0, maxSize = 1;
+  int idleMs = 1;
+  int gapUs = 0;       // scripted delay (idle shape, interposed builds)
+  int offsetUs = 0;    // final submission = warm-up finished + idle timeout + offset
+  int finalKind = kValue, finalApi = aResult;
+  int endMode = 0;     // 0 destructor, 2 shutdown()
+  int endDelayUs = 0;
+  int parentApi = 0, childApi = 2;
+  int nBefore = 0, nAfter = 0; // short tasks around the fork-join parent
+  bool letWorkersExit = false; // fork shape: pause > idle timeout between the short tasks and the parent
+  bool waitParentStarted = false; // fork shape: the end call is not made before the parent body runs
+};
+
+std::string edgeText(const EdgePlan &p)
+{
+  pbt::Fmt f;
+  if (p.shape == 0)
+    f << "[idle: pool(0," << p.maxSize << ",idle=" << p.idleMs << "ms) " << p.maxSize << " warm-up task(s), last submission (" << kindName(p.finalKind) << " via "
+      << apiName(p.finalApi) << ") " << p.offsetUs << " us after the idle timeout, retiring workers held " << p.gapUs << " us, then "
+      << (p.endMode ? "shutdown()" : "~ThreadPool()") << "]";
+  else
+    f << "[fork: pool(" << p.initial << "," << p.maxSize << ",idle=" << p.idleMs << "ms) " << p.nBefore << " short task(s)" << (p.letWorkersExit ? ", pause > idle" : "")
+      << ", fork-join parent via " << apiName(p.parentApi) << " (child via " << apiName(p.childApi) << "), " << p.nAfter << " short task(s), " << (p.waitParentStarted ? "wait until the parent runs, " : "") << p.endDelayUs << " us, then "
+      << (p.endMode ? "shutdown()" : "~ThreadPool()") << "]";
+  return f.str();
+}
+
+void runEdge(const EdgePlan &pl, SlowResult &res)
+{
+  auto cxp = std::make_unique<Ctx>();
+  Ctx &cx = *cxp;
+  cx.maxSize = pl.maxSize;
+  cx.maxQueue = 32;
+  Ctx *cxr = &cx;
+  auto handler = [cxr](std::exception_ptr) { cxr->handlerCalls.fetch_add(1); };
+  cx.pool = new ThreadPool(pl.initial, pl.maxSize, std::chrono::milliseconds(pl.idleMs), cx.maxQueue, handler);
+  auto waitFinished = [&](const std::vector<int> &ids)
+  {
+    for (;;)
+    {
+      bool all = true;
+      for (int id : ids)
+        if (cx.tasks[static_cast<std::size_t>(id)]->status.load() == sAccepted && cx.tasks[static_cast<std::size_t>(id)]->finished.load() == 0) all = false;
+      if (all) return;
+      sched::sleepUs(30);
+    }
+  };
+  if (pl.shape == 0)
+  {
+    std::vector<int> warm;
+    for (std::size_t i = 0; i < pl.maxSize; ++i)
+    {
+      int id = addTask(cx, kVoid, aEnqueue, 0);
+      cx.tasks[static_cast<std::size_t>(id)]->gapLockNth = 2;
+      cx.tasks[static_cast<std::size_t>(id)]->gapUs = sched::kInterposed ? pl.gapUs : 0;
+      warm.push_back(id);
+    }
+    int fin = addTask(cx, pl.finalKind, pl.finalApi, 100);
+    for (int id : warm) submit(&cx, id);
+    waitFinished(warm);
+    int us = pl.idleMs * 1000 + pl.offsetUs;
+    if (us > 0) sched::sleepUs(static_cast<std::uint32_t>(us));
+    submit(&cx, fin); // the last submission of this pool's life
+  }
+  else
+  {
+    std::vector<int> before;
+    for (int i = 0; i < pl.nBefore; ++i) before.push_back(addTask(cx, i % 2 ? kSleep : kVoid, i % 3, 150));
+    int parent = addTask(cx, kForkJoin, pl.parentApi, 0);
+    int child = addTask(cx, kValue, pl.childApi, 0);
+    cx.tasks[static_cast<std::size_t>(parent)]->children.push_back(child);
+    std::vector<int> after;
+    for (int i = 0; i < pl.nAfter; ++i) after.push_back(addTask(cx, i % 2 ? kVoid : kSleep, (i + 1) % 3, 100));
+    for (int id : before) submit(&cx, id);
+    if (pl.letWorkersExit)
+    {
+      waitFinished(before);
+      sched::sleepUs(static_cast<std::uint32_t>(pl.idleMs * 1000 + 1500));
+    }
+    submit(&cx, parent);
+    for (int id : after) submit(&cx, id);
+    if (pl.waitParentStarted)
+      while (cx.tasks[static_cast<std::size_t>(parent)]->status.load() == sAccepted && cx.tasks[static_cast<std::size_t>(parent)]->exec.load() == 0) sched::sleepUs(30);
+  }
+  if (pl.endDelayUs) sched::sleepUs(static_cast<std::uint32_t>(pl.endDelayUs));
+  cx.stopBegun.store(true, std::memory_order_release);
+  std::string early;
+  if (pl.endMode == 2)
+  {
+    cx.pool->shutdown();
+    cx.afterStop.store(true, std::memory_order_release);
+    early = unfinishedAccepted(cx);
+    if (!early.empty())
+    {
+      cxp.release();
+      res.sig = "C09/stop-returned-before-accepted-task-finished";
+      res.what = early + " when shutdown() returned";
+      return;
+    }
+  }
+  delete cx.pool;
+  cx.afterStop.store(true, std::memory_order_release);
+  early = unfinishedAccepted(cx);
+  if (!early.empty())
+  {
+    // nobody is left to run it (or a worker survived the destructor): keep the context alive either way
+    cxp.release();
+    res.sig = "C09/accepted-task-not-run";
+    res.what = early + " when ~ThreadPool() returned";
+    return;
+  }
+  verifyDestroyed(cx, pl.maxSize, pl.endMode ? "shutdown()" : "~ThreadPool()", res);
+}
+
+void runEdgeCase(std::vector<EdgePlan> &plans, pbt::Case &c)
+{
+  iora::core::Logger::setLevel(iora::core::Logger::Level::Fatal);
+  std::string d = "pool_edge:";
+  for (auto &p : plans) d += " " + edgeText(p);
+  c.describe(d);
+  bool inconclusive = false;
+  for (auto &p : plans)
+  {
+    SlowResult res;
+    runEdge(p, res);
+    if (!res.sig.empty())
+    {
+      if (res.timed) c.failTimed(res.sig, edgeText(p) + ": " + res.what);
+      else c.fail(res.sig, edgeText(p) + ": " + res.what);
+      return;
+    }
+    inconclusive = inconclusive || res.inconclusive;
+    c.label(p.shape == 0 ? (p.gapUs && sched::kInterposed ? "idle boundary, retiring worker held" : "idle boundary, natural timing") : "fork-join parent");
+  }
+  if (inconclusive) c.inconclusive("submission threw an undocumented exception");
+  c.nontrivial(pbt::hash64(d));
+}
+
+void generatedEdge(pbt::Src &src, pbt::Case &c)
+{
+  pbt::watchdog(150, "C09/shutdown-stalled");
+  std::vector<EdgePlan> plans;
+  for (int i = 0; i < 6; ++i)
+  {
+    EdgePlan p;
+    p.shape = i < 4 ? 0 : 1;
+    p.endMode = src.coin(1, 3) ? 2 : 0;
+    p.endDelayUs = static_cast<int>(src.oneOf<int>({0, 0, 100, 1000, 3000}));
+    if (p.shape == 0)
+    {
+      p.initial = 0;
+      p.maxSize = static_cast<std::size_t>(src.range(1, 2));
+      p.idleMs = static_cast<int>(src.oneOf<int>({1, 1, 2, 3, 5}));
+      p.gapUs = static_cast<int>(src.oneOf<int>({0, 2000, 4000, 4000, 6000}));
+      if (p.gapUs && sched::kInterposed)
+        p.offsetUs = static_cast<int>(p.gapUs * src.range(15, 80) / 100); // inside the held interval
+      else
+        p.offsetUs = static_cast<int>(src.range(-300, 800));               // around the natural boundary
+      static const int fk[] = {kValue, kVoid, kThrow, kSleep};
+      p.finalKind = fk[src.range(0, 3)];
+      p.finalApi = static_cast<int>(src.range(0, 2));
+    }
+    else
+    {
+      p.maxSize = static_cast<std::size_t>(src.range(2, 3));
+      p.initial = static_cast<std::size_t>(src.range(0, 1));
+      p.idleMs = static_cast<int>(src.oneOf<int>({2, 5, 20}));
+      p.parentApi = static_cast<int>(src.range(0, 2));
+      p.childApi = static_cast<int>(src.range(0, 2));
+      p.nBefore = static_cast<int>(src.weighted({3, 1, 1, 1}));
+      p.nAfter = static_cast<int>(src.weighted({3, 1, 1, 1}));
+      p.letWorkersExit = src.coin(1, 2);
+      p.waitParentStarted = src.coin(2, 3);
+    }
+    plans.push_back(p);
+  }
+  runEdgeCase(plans, c);
+}
+
+// Deterministic shapes (replays/C09/regress-last_submission_at_idle_exit.json, ...fork_join_child_runs...)
+void idleExitRegression(pbt::Case &c)
+{
+  pbt::watchdog(150, "C09/shutdown-stalled");
+  std::vector<EdgePlan> plans;
+  for (int i = 0; i < 6; ++i)
+  {
+    EdgePlan p;
+    p.shape = 0;
+    p.maxSize = static_cast<std::size_t>(1 + i % 2);
+    p.idleMs = 1 + i % 3;
+    p.gapUs = 6000;
+    p.offsetUs = 2000 + 500 * i;
+    p.finalKind = kValue;
+    p.finalApi = i % 3;
+    p.endMode = 0;
+    plans.push_back(p);
+  }
+  runEdgeCase(plans, c);
+}
+void forkJoinRegression(pbt::Case &c)
+{
+  pbt::watchdog(150, "C09/shutdown-stalled");
+  std::vector<EdgePlan> plans;
+  for (int i = 0; i < 3; ++i)
+  {
+    EdgePlan p;
+    p.shape = 1;
+    p.initial = 0;
+    p.maxSize = 2;
+    p.idleMs = 20;
+    p.parentApi = i;
+    p.childApi = (i + 2) % 3;
+    p.waitParentStarted = true;
+    p.endDelayUs = 2000;
+    p.endMode = 0;
+    plans.push_back(p);
+  }
+  runEdgeCase(plans, c);
+}
+
 } // namespace c09
 
 PBT_REGRESSION(worker_idle_exit_before_registration) { c09::idleExitBeforeRegistration(c); }
 PBT_PROPERTY(pool) { c09::generated(src, c); }
 PBT_PROPERTY(pool_slow) { c09::generatedSlow(src, c); }
+PBT_PROPERTY(pool_edge) { c09::generatedEdge(src, c); }
+PBT_REGRESSION(last_submission_at_idle_exit) { c09::idleExitRegression(c); }
+PBT_REGRESSION(fork_join_child_runs_while_parent_waits) { c09::forkJoinRegression(c); }
 PBT_REGRESSION(stop_waits_for_task_longer_than_internal_polls) { c09::slowRegression(c); }
 PBT_REGRESSION(max_threads_barrier_submitters) { c09::barrierBurst(c, 2, 8, 0); }
 PBT_REGRESSION(max_threads_barrier_submitters_max1_stop) { c09::barrierBurst(c, 1, 8, 1); }
